@@ -2,7 +2,7 @@
 // Executable contract of the participant lease bookkeeping of DiscoveryDB (C12) — bounded stand-in /
 // witness search on the REAL code.
 // Oracle = a model written from the property statement: per remote participant the lease it
-//   advertised (absent -> 60 s) and its silence (time since the last announcement / liveliness
+//   advertised (absent -> 100 s, the RTPS default) and its silence (time since the last announcement / liveliness
 //   assertion); per endpoint whether it is known and whether a copy waits for the participant to
 //   reappear.  participant_cleanup() must report exactly the participants with silence > lease,
 //   drop them from the participant list and make their endpoints unknown; everybody else (and
@@ -14,7 +14,7 @@
 //   time of one sequence is << 150 ms (re-run otherwise).
 // Bound: 2 remote participants with adjacent GUID prefixes, one reader (EntityId::MAX) and one
 //   writer each; EVERY operation sequence of length <= 4 over the 23 operations
-//   {cleanup, announce(p, lease absent | 1 s | 2 s), alive(p), age(p, 0.7 | 1.6 | 59.7 | 60.3 s),
+//   {cleanup, announce(p, lease absent | 1 s | 2 s), alive(p), age(p, 0.7 | 1.6 | 99.7 | 100.3 s),
 //    dispose(p), update_subscription(p), update_publication(p)}, started from three states:
 //   empty DB / both participants announced with endpoints / one participant timed out (attic).
 #[cfg(test)]
@@ -32,7 +32,7 @@ mod verif_xc_leases {
 
   const TOPIC: &str = "xc_lease_topic";
   const TYPE: &str = "xc_lease_type";
-  const DEFAULT_LEASE_MS: u64 = 60_000; // "or the default the code uses when absent"
+  const DEFAULT_LEASE_MS: u64 = 100_000; // default of PID_PARTICIPANT_LEASE_DURATION, RTPS 2.5 table 9.14 (finding F19)
   const MARGIN_MS: u64 = 250;
   const MAX_REAL_MS: u128 = 150;
 
@@ -69,7 +69,7 @@ mod verif_xc_leases {
         v.push(Op::Announce(p, l));
       }
       v.push(Op::Alive(p));
-      for d in [700, 1600, 59_700, 60_300] {
+      for d in [700, 1600, 99_700, 100_300] {
         v.push(Op::Age(p, d));
       }
       v.push(Op::Dispose(p));
